@@ -384,6 +384,10 @@ def run(tier: str, seed: int, replay=None) -> int:
         "_any_of_the_kwargs_is_a_variable -> Gen/Pred.v) and its idiom table Eql/PredIdioms.v (dict as ordered association list, zip, slicing, any)",
         "hand-written model of the predicate-variable evaluation (Eql/PredEval.v: independent evaluation of the kwargs, itertools.product, "
         "values.update in kwarg order), variable-level bindings; tied by differential execution through an(entity/set_of(...))",
+        "source pins `pred` (pins/sets/pred.json, recorded in pins/pred.json): the 22 methods the hand model mirrors and no translator regenerates "
+        "(Variable.__post_init__/_update_child_vars_from_kwargs_/_evaluate__/_should_be_instantiated_/_instantiate_using_child_vars_and_yield_results_/"
+        "_generate_combinations_for_child_vars_values_/_process_output_and_update_values_, Literal.__init__, DomainMapping._evaluate__, Attribute._apply_mapping_, "
+        "AND._evaluate__, QueryObjectDescriptor evaluation, utils.generate_combinations, Symbol.__new__, Predicate.__call__, update_cache); an edit reopens the correspondence obligation",
         "harness/c12.py: dynamically defined functions / Predicate dataclasses with a call log, case builder, outcome canonicaliser",
         "Python's own parameter binding (Spec part 1, python_bind/call_ok) is stated, and compared with CPython on the concrete calls",
     ]
@@ -408,6 +412,8 @@ def run(tier: str, seed: int, replay=None) -> int:
     if model_ok and tier == "thorough" and not replay:
         rc, out = core.sh(["timeout", "600", "coqchk", "-silent", "-o", "-Q", ".", "Krrood", "Krrood.Props.C12"], cwd=core.COQ, timeout=630)
         rep.oblige("coqchk:Props/C12.vo", rc == 0 and "Axioms: <none>" in out.replace("\n", " "), out.strip()[-400:])
+    from translator import pins
+    pins.oblige(rep, str(core.REPO), "pred", "the predicate-evaluation model (Eql/PredEval.v)")
     header, fn = (HEADER, "case_code") if model_ok else (HEADER_SPEC, "case_code_spec")
     if not model_ok:
         rep.note("model not available; comparing the implementation with the Spec only (search for a failing input)")
